@@ -48,7 +48,7 @@ META = {
                  'raw NUL inside a firebird/sybase/maxdb/mssql/postgres statement is modelled as refused (C-string client APIs)'],
     'assumptions': ['TRANSLATED source (vlib/extractors/pylex.py -> Extracted/PyLex.lean, semantics Model/PyLex.lean, interface Model/LexX.lean): StringLikeConverter, '
                     'quote_str, unquote_str, Int/Bool/None/Float/Sequence/Date/Time/DateTime converters, sqlrepr, SQLObject.__sqlrepr__, DBAPI.sqlrepr/_insertSQL/_SO_update are '
-                    'translated from the AST on every run and proved equal to the hand model for all inputs (C02_translated_*); DBAPI._SO_columnClause is NOT translated (its final '
+                    'translated from the AST on every run and proved equal to the hand model for all inputs (C02_translated_*; DecimalConverter with Decimal.to_eng_string() as an opaque interface call, TimedeltaConverter as its format text — the model has no timedelta kind; StructTimeConverter not translated: time.strftime); DBAPI._SO_columnClause is NOT translated in PyLex (C11 proves it in the PyQuery embedding for None / int / instance values only) (its final '
                     'join is extracted as data by lex.py; kw/dict handling hand-modelled + statement streams); assumed interface: exact-class converter registry (extracted '
                     'registerConverter table, Python 3 branch, optional third-party types absent), which classes have __sqlrepr__, repr(float) is opaque text; the CPython '
                     'semantics of str.replace / in / % (%s %d %0Nd) / join / repr(int) are built into the embedding and cross-checked only through the text-equality streams',
